@@ -1,6 +1,204 @@
-(** C16 — property theorems only. *)
+(** C16 — Analysis attach/detach leaves the IR unchanged.  Property theorems only.
+    Model: models/M_C16.v; proofs: proofs/P_C16.v (pragmas), P_C16_R.v (regions), P_C16_D.v (dataflow, contexts). *)
 From Coq Require Import ZArith List Bool String.
-From LV Require Import models.M_C16 proofs.P_C16.
-Theorem C16_tmp : forall a, up_attr (up_attr a) = up_attr a.
-Proof. exact up_attr_idem. Qed.
-Print Assumptions C16_tmp.
+From LV Require Import models.M_C16 proofs.P_C16 proofs.P_C16_R proofs.P_C16_D proofs.P_C16_F.
+Import ListNotations.
+Open Scope list_scope.
+
+(** ** pragmas: attach_pragmas / detach_pragmas, any node_type set, with and without pragma_post *)
+
+(** nothing attached yet and the requested classes own the attributes (Loop, WhileLoop; CallStatement,
+    declarations when attach_pragma_post is off): the round trip is the identity, node identities included *)
+Theorem C16_detach_attach_id : forall nt pf t,
+  clean nt pf t = true -> detP nt pf (attP nt pf t) = t.
+Proof. exact detach_attach_strict. Qed.
+Print Assumptions C16_detach_attach_id.
+
+(** any node_type set (also classes without a pragma / pragma_post field): identical up to
+    "a missing instance attribute reads as None", which is all that ==, fgen and getattr can see *)
+Theorem C16_detach_attach_id_getattr : forall nt pf t,
+  no_preattached nt pf t = true -> up (detP nt pf (attP nt pf t)) = up t.
+Proof. exact detach_attach_up. Qed.
+Print Assumptions C16_detach_attach_id_getattr.
+
+(** the dangling attribute is real: pragmas_attached(CallStatement) leaves pragma_post=None on the call *)
+Theorem C16_detach_attach_strict_needs_fields :
+  no_preattached (nt_of [KCall]) true call_witness = true /\
+  detP (nt_of [KCall]) true (attP (nt_of [KCall]) true call_witness)
+  = TN 1 KSection NoAttr NoAttr false [[TN 2 KCall ANone ANone false [] []; TP (p_ 3)]] [].
+Proof. exact strict_needs_fields. Qed.
+Print Assumptions C16_detach_attach_strict_needs_fields.
+
+(** identity, class, nesting and order of every node that is not a Pragma: untouched, no hypothesis *)
+Theorem C16_attach_preserves_non_pragma_nodes : forall nt pf t,
+  skel (attP nt pf t) = skel t /\ skel (detP nt pf t) = skel t.
+Proof. intros; split; [apply attach_preserves_skeleton|apply detach_preserves_skeleton]. Qed.
+Print Assumptions C16_attach_preserves_non_pragma_nodes.
+
+(** attach after detach: the identity on trees produced by attaching, not on arbitrary pre-attached trees *)
+Theorem C16_attach_detach_on_image : forall nt pf t0,
+  clean nt pf t0 = true -> attP nt pf (detP nt pf (attP nt pf t0)) = attP nt pf t0.
+Proof. exact attach_detach_on_image. Qed.
+Print Assumptions C16_attach_detach_on_image.
+
+Theorem C16_attach_detach_refuted :
+  attP (nt_of [KLoop]) true (detP (nt_of [KLoop]) true preattached_witness) <> preattached_witness.
+Proof. exact attach_detach_refuted. Qed.
+Print Assumptions C16_attach_detach_refuted.
+
+(** with something already attached the round trip is not the identity: the attached pragma is overwritten *)
+Theorem C16_detach_attach_preattached_refuted :
+  up (detP (nt_of [KLoop]) true (attP (nt_of [KLoop]) true preattached_witness)) <> up preattached_witness
+  /\ doc_prags (attP (nt_of [KLoop]) true preattached_witness) = [p_ 2].
+Proof. exact detach_attach_preattached_refuted. Qed.
+Print Assumptions C16_detach_attach_preattached_refuted.
+
+(** ** pragma regions (nested, unmatched, case-mixed pairs; keyword filter) *)
+Theorem C16_regions_detach_attach_id_on_class : forall kw t t',
+  attach_regions kw t = Some t' -> in_region_class kw t = true -> detR t' = t.
+Proof. exact regions_detach_attach. Qed.
+Print Assumptions C16_regions_detach_attach_id_on_class.
+
+(** unconditional part: whatever pairs are used, unpacking undoes the packing as long as every lookup hits the
+    pragma object it was looking for, start before end *)
+Theorem C16_regions_unpack_after_pack : forall pairs t,
+  attR_safe pairs t = true -> detR1 (attR pairs t) = detR1 t.
+Proof. exact detR1_attR. Qed.
+Print Assumptions C16_regions_unpack_after_pack.
+
+(** F2: pragmas that are == (no source) and an unmatched end before a matched pair: nodes are duplicated *)
+Theorem C16_regions_detach_attach_refuted :
+  exists t t', no_regions t = true /\ no_empty_bodies t = true /\
+               attach_regions None t = Some t' /\ skel (detR t') <> skel t.
+Proof. exact regions_roundtrip_refuted. Qed.
+Print Assumptions C16_regions_detach_attach_refuted.
+
+(** F3: identically spelled nested regions without source: same text, but one Pragma object is lost *)
+Theorem C16_regions_identity_refuted :
+  option_map detR (attach_regions None nested_same_witness)
+  = Some (sec 1 [TP (pa_ 3 "data"); TP (pa_ 3 "data"); asg 4; TP (pa_ 5 "end data"); TP (pa_ 6 "end data")]).
+Proof. exact regions_identity_refuted. Qed.
+Print Assumptions C16_regions_identity_refuted.
+
+(** F5: an empty CASE body disappears *)
+Theorem C16_regions_empty_body_refuted :
+  option_map detR (attach_regions None empty_body_witness)
+  = Some (sec 1 [TN 2 KMulti NoAttr NoAttr false [[]] [[asg 3]]]).
+Proof. exact regions_empty_body_refuted. Qed.
+Print Assumptions C16_regions_empty_body_refuted.
+
+(** ** dataflow analysis *)
+Theorem C16_dfa_detach_attach_id_on_class : forall t,
+  dfa_class t = true -> dfaD (dfaA t) = t.
+Proof. exact dfa_detach_attach. Qed.
+Print Assumptions C16_dfa_detach_attach_id_on_class.
+
+(** F1: Associate (and StatementFunction) nodes keep the analysis results after detaching *)
+Theorem C16_dfa_detach_attach_refuted :
+  deep dfa_clear_top assoc_witness = true /\ no_empty_bodies assoc_witness = true /\
+  dfaD (dfaA assoc_witness) = sec 1 [TN 2 KAssoc NoAttr NoAttr true [[asg 3]] []].
+Proof. exact dfa_detach_attach_refuted. Qed.
+Print Assumptions C16_dfa_detach_attach_refuted.
+
+(** ** context managers: detach runs in [finally] *)
+Theorem C16_ctx_runs_detach_in_finally : forall enter leave u body,
+  with_ctx enter leave u body =
+  match enter u with
+  | Err u' => Raised u'
+  | Ok u1 => match body u1 with Returned u2 => Returned (leave u2) | Raised u2 => Raised (leave u2) end
+  end.
+Proof. exact ctx_finally. Qed.
+Print Assumptions C16_ctx_runs_detach_in_finally.
+
+Theorem C16_ctx_restores_on_exception : forall u,
+  (forall nt pf body,
+      forallb (clean (nt_of nt) pf) u = true ->
+      body (map (attP (nt_of nt) pf) u) = Raised (map (attP (nt_of nt) pf) u) ->
+      pragmas_attached nt pf u body = Raised u) /\
+  (forall nt pf body,
+      forallb (no_preattached (nt_of nt) pf) u = true ->
+      body (map (attP (nt_of nt) pf) u) = Raised (map (attP (nt_of nt) pf) u) ->
+      exists u', pragmas_attached nt pf u body = Raised u' /\ map up u' = map up u) /\
+  (forall kw u1 body,
+      forallb (in_region_class kw) u = true ->
+      attR_unit kw u = Ok u1 -> body u1 = Raised u1 ->
+      pragma_regions_attached kw u body = Raised u) /\
+  (forall body,
+      forallb dfa_class u = true ->
+      body (map dfaA u) = Raised (map dfaA u) ->
+      dataflow_analysis_attached u body = Raised u).
+Proof.
+  intros u. repeat split.
+  - intros; now apply ctx_pragmas_exception.
+  - intros; now apply ctx_pragmas_exception_up.
+  - intros; eapply ctx_regions_exception; eauto.
+  - intros; now apply ctx_dfa_exception.
+Qed.
+Print Assumptions C16_ctx_restores_on_exception.
+
+Theorem C16_ctx_restores_on_return : forall u,
+  (forall nt pf body,
+      forallb (clean (nt_of nt) pf) u = true ->
+      body (map (attP (nt_of nt) pf) u) = Returned (map (attP (nt_of nt) pf) u) ->
+      pragmas_attached nt pf u body = Returned u) /\
+  (forall kw u1 body,
+      forallb (in_region_class kw) u = true ->
+      attR_unit kw u = Ok u1 -> body u1 = Returned u1 ->
+      pragma_regions_attached kw u body = Returned u) /\
+  (forall body,
+      forallb dfa_class u = true ->
+      body (map dfaA u) = Returned (map dfaA u) ->
+      dataflow_analysis_attached u body = Returned u).
+Proof.
+  intros u. repeat split.
+  - intros; now apply ctx_pragmas_return.
+  - intros; eapply ctx_regions_return; eauto.
+  - intros; now apply ctx_dfa_return.
+Qed.
+Print Assumptions C16_ctx_restores_on_return.
+
+(** all combinations: properly nested contexts of the three kinds, each entered in a state of its class
+    (e.g. pragma_regions_attached inside pragmas_attached inside dataflow_analysis_attached):
+    entering all of them and leaving them in reverse order gives back the unit *)
+Theorem C16_nested_contexts_roundtrip : forall fl u,
+  flow_in_class fl u = true ->
+  exists u', run_ops (enter_ops fl ++ leave_ops fl) u = Ok u' /\ map up u' = map up u.
+Proof. exact nested_contexts_roundtrip. Qed.
+Print Assumptions C16_nested_contexts_roundtrip.
+
+(** an exception while *entering* pragma_regions_attached (IndexError in the matching of the body) is not
+    covered by the try/finally: the spec keeps its regions *)
+Theorem C16_ctx_regions_enter_error_partial :
+  let spec := sec 1 [TP (pa_ 2 "data"); asg 3; TP (pa_ 4 "end data")] in
+  let body := sec 5 [TP (pa_ 6 "data"); asg 7; TP (pa_ 8 "end")] in
+  pragma_regions_attached None [spec; body] (fun u => Returned u)
+  = Raised [sec 1 [TR (pa_ 2 "data") (pa_ 4 "end data") false [asg 3]]; body].
+Proof. exact ctx_regions_enter_error_partial. Qed.
+Print Assumptions C16_ctx_regions_enter_error_partial.
+
+(** ** the hypotheses are satisfiable by non-trivial instances *)
+Theorem C16_classes_inhabited :
+  (let t := TN 1 KSection NoAttr NoAttr false
+              [[TP (p_ 2); TP (p_ 3); TN 4 KLoop ANone ANone false [[TP (p_ 5); TN 6 KAssign NoAttr NoAttr false [] []]] [];
+                TP (p_ 7); TN 8 KComment NoAttr NoAttr false [] []; TN 9 KLoop ANone ANone false [[]] []; TP (p_ 10)]] [] in
+   clean (nt_of [KLoop]) true t = true /\ attP (nt_of [KLoop]) true t <> t) /\
+  (let t := sec 1 [TP (pl_ 2 "ACC" "DATA   present(a)"); TP (pl_ 3 "loki" "region-x"); asg 4;
+                   TP (pl_ 6 "loki" "end region-x"); TP (pl_ 5 "omp" "parallel");
+                   TN 7 KLoop ANone ANone false [[asg 8; TP (pl_ 9 "omp" "end parallel do")]] [];
+                   TP (pl_ 10 "acc" "End Data"); TP (pl_ 11 "acc" "end kernels")] in
+   in_region_class None t = true /\
+   option_map (map (fun pr => (pid (fst pr), pid (snd pr)))) (matching_pairs (findp t)) = Some [(3, 6); (5, 9); (2, 10)]%Z /\
+   option_map (fun t' => tree_eqb t' t) (attach_regions None t) = Some false) /\
+  (let t := sec 1 [TP (p_ 2); TN 3 KLoop ANone ANone false [[asg 4; TN 5 KMulti NoAttr NoAttr false [[]] [[asg 6]; [asg 7]]]] []] in
+   dfa_class t = true /\ dfaA t <> t) /\
+  (let t := sec 1 [TP (pl_ 2 "acc" "data"); TP (pl_ 3 "loki" "foo"); TN 4 KLoop ANone ANone false [[asg 5]] [];
+                   TP (pl_ 6 "loki" "bar"); TN 7 KCall ANone NoAttr false [] []; TP (pl_ 8 "acc" "end data");
+                   TP (pl_ 9 "omp" "simd")] in
+   flow_in_class [CR None; CP [KLoop; KCall] true; CD] [t] = true /\
+   option_map (fun u => list_eqb tree_eqb u [t])
+              (match run_ops (enter_ops [CR None; CP [KLoop; KCall] true; CD]) [t] with Ok u => Some u | Err _ => None end)
+   = Some false).
+Proof.
+  split; [exact clean_nontrivial|split; [exact region_class_nontrivial|split; [exact dfa_class_nontrivial|exact nested_nontrivial]]].
+Qed.
+Print Assumptions C16_classes_inhabited.
